@@ -38,7 +38,7 @@ def cfg_trace(ctx):
     return "SPECIFICATION TraceSpec\nCONSTANTS\n%s\nINVARIANT PrintEnd\nCHECK_DEADLOCK FALSE\n" % consts(ctx, '{"t1", "t2", "t3"}')
 
 
-def scenario(sid, present, crit, event, outcome, verdict, early=False, lose=None):
+def scenario(sid, present, crit, event, outcome, verdict, early=False, lose=None, lost_before=None):
     """early: ok answers are on their way before the MESSAGE call returns; lose = (kind, task): that task's executor/agent is
     reported lost (Mesos FAILURE event) once the command under test has reached it."""
     tasks = []
@@ -52,6 +52,8 @@ def scenario(sid, present, crit, event, outcome, verdict, early=False, lose=None
         tasks.append({"id": t, "class": cls, "crit": crit[t], "outcome": outcome[t]})
         if outcome[t] == "ok" and early and event != "DEPLOY":
             scripts.append({"class": cls, "event": event, "outcome": "ok_early"})
+        if lost_before and t == lost_before[1]:
+            continue      # no script: the command cannot even be sent to it
         if outcome[t] != "ok":
             if event == "DEPLOY":
                 scripts.append({"class": cls, "launch": LAUNCH[outcome[t]]})
@@ -70,7 +72,15 @@ def scenario(sid, present, crit, event, outcome, verdict, early=False, lose=None
             # the START that precedes the STOP under test must not be disturbed by the scripts (event-specific)
             steps.append({"do": "control", "env": "e1", "op": "START_ACTIVITY"})
             model["call"] = "control"
-        if lose:
+        if lost_before:
+            # the executor (agent) of that task is reported lost and the request arrives while the task manager is still
+            # digesting it: ids already blanked, role still ACTIVE (the reaction is held at its state update)
+            steps += [{"do": "gate", "point": "task.state.update", "match": {"state": "ERROR"}},
+                      {"do": "fault", "kind": lost_before[0], "class": "c02s%d%s" % (sid, lost_before[1])},
+                      {"do": "waitgate", "point": "task.state.update", "timeout_ms": 5000},
+                      {"do": "control", "env": "e1", "op": OPS[event]},
+                      {"do": "ungate", "point": "task.state.update"}]
+        elif lose:
             steps += [{"do": "control", "env": "e1", "op": OPS[event], "timeout_ms": 115000 if slow else 0, "caller": "T"},
                       {"do": "sleep", "ms": 300},
                       {"do": "fault", "kind": lose[0], "class": "c02s%d%s" % (sid, lose[1])},
@@ -122,6 +132,11 @@ def run(ctx):
     for kind in (["EXECUTOR_LOST"] if quick else ["EXECUTOR_LOST", "AGENT_LOST"]):
         sid += 1
         scenarios.append(scenario(sid, ["t1", "t2"], {"t1": True, "t2": True}, "START", {"t1": "silent", "t2": "ok"}, "fail", lose=(kind, "t1")))
+    # the request arrives in the middle of the reaction to the loss of a critical task's executor / agent
+    for kind in ("EXECUTOR_LOST", "AGENT_LOST"):
+        for ev in (("START", "STOP") if quick else ("START", "STOP", "RESET")):
+            sid += 1
+            scenarios.append(scenario(sid, ["t1", "t2"], {"t1": True, "t2": True}, ev, {"t1": "unsendable", "t2": "ok"}, "fail", lost_before=(kind, "t1")))
     # timing variant: the acknowledgements overtake the return of the send call
     for ev in ("CONFIGURE", "START", "STOP", "RESET"):
         for out in ({"t1": "ok", "t2": "ok"}, {"t1": "err_src", "t2": "ok"}):
